@@ -429,25 +429,35 @@ pub fn run(ctx: &Ctx) -> HResult<()> {
 	let ev = &ctx.ev;
 	ev.rule("delivery histories (blocks on a fork tree built by construction from the model UTXO of the chosen parent, single-defect negative blocks, reopen, compact, validate) generated by proptest; after every step get_unspent over every commitment ever created, the pmmr-index enumeration and validate_inputs/validate_tx probes are compared with a replay model; non-trivial = history with a reorg where some output's status differs between the two fork tips; distinct by (fork depth, spends, recreated, reopen, compaction, reorg count, negative kinds, base)");
 	ev.assume("the harness's replay model (spends remove, outputs insert, coinbase maturity) is the oracle; blocks are rooted with Chain::set_txhashset_roots on the chain under test");
-	let t0 = std::time::Instant::now();
-	base(ctx).map_err(HarnessError)?;
-	ev.extra("base_chain_build_s", json!(t0.elapsed().as_secs_f64()));
-	eprintln!("base chain built in {:.1}s", t0.elapsed().as_secs_f64());
-	let cases = ctx.n(64, 1600);
-	let strat_fn = || case_strategy(if ctx.quick() { 18 } else { 24 }, 14);
-	let fl = pbt_par(ctx, "c02", cases, 16, strat_fn, init_thread, |c, counting| run_case(ctx, c, counting));
-	if let Some(fl) = fl {
-		ctx.report("history", &fl.fail.sig, serde_json::to_value(&fl.value).unwrap(), &fl.fail.msg);
+	let cases = ctx.n(96, 1600);
+	if let Some((case, f)) = pbt_proc(ctx, "history", cases, 16) {
+		ctx.report("history", &f.sig, case, &f.msg);
 	}
 	let s = sample_one(ctx.derive_seed("sample", 0), &case_strategy(6, 14));
 	ev.sample("history", || serde_json::to_value(&s).unwrap());
-	ev.extra("proofs_created", json!(LIB.proofs_created.load(std::sync::atomic::Ordering::Relaxed)));
 	for cl in ["histories_with_reorg", "histories_with_reopen", "histories_with_effective_compaction", "histories_with_recreated_commitment"] {
 		if ev.class_count(cl) == 0 {
 			eprintln!("warning: class {} is empty in this run", cl);
 		}
 	}
 	Ok(())
+}
+
+pub fn part(ctx: &Ctx, part: &str, seed: u64, cases: u32) -> Option<(Value, Fail)> {
+	init_global();
+	match part {
+		"history" => {
+			let t0 = std::time::Instant::now();
+			if let Err(e) = base(ctx) {
+				return Some((json!({}), Fail::new("harness:base", e)));
+			}
+			ctx.ev.extra("base_chain_build_s", json!(t0.elapsed().as_secs_f64()));
+			let r = run_part(ctx, seed, cases, &case_strategy(if ctx.quick() { 18 } else { 24 }, 14), |c, counting| run_case(ctx, c, counting));
+			ctx.ev.extra("proofs_created", json!(LIB.proofs_created.load(std::sync::atomic::Ordering::Relaxed)));
+			r
+		}
+		_ => None,
+	}
 }
 
 pub fn replay(ctx: &Ctx, part: &str, case: &Value) -> PResult {
